@@ -14,6 +14,12 @@ import common as C
 
 C.reexec_under_impl_python()
 import rd_common as R
+import hashlib
+
+
+def _h(txt):
+    """8-byte digest of a canonical JSON text (distinctness is counted on digests)"""
+    return hashlib.blake2b(txt.encode(), digest_size=8).digest()
 
 CID = "C09"
 VO = ["props/C09.vo"] + R.VO_MODEL
@@ -200,7 +206,7 @@ def run_batch(pairs, oracle, want_samples=0):
         if item["r"][0] == "ok":
             d = item["d"]
             if bool(d):
-                nontrivial.add(json.dumps(inp, sort_keys=True))
+                nontrivial.add(_h(json.dumps(inp, sort_keys=True)))
             if (d.years or d.months) and dt2.day > 28 and "back_ok" in item:
                 # the whole-month shift of dt2 had to clip the day
                 import calendar
